@@ -14,6 +14,7 @@ from pyvc import builtins_ as B
 from pyvc import extract
 from pyvc.engine import NOTHANDLED
 from .common import *
+from . import remodel
 
 PROPERTY = 'C16'
 BRIDGE = 'openfilter/observability/bridge.py'
@@ -52,11 +53,23 @@ class FnmatchMod:
 
 
 def exporter(ex, allow, raw=False, lineage=None):
-    register_class(ex, BRIDGE, 'OTelLineageExporter')
-    ex.models['fnmatch'] = FnmatchMod
+    """the exporter object as the REAL __init__ builds it (so state derived from the allow-list in __init__ is followed)"""
+    register_class(ex, BRIDGE, 'OTelLineageExporter', bases=())
+    remod, fnmod = remodel.install(ex, symbolic_fnmatch=FN)
+    ex.models['osenv'] = type('OsEnv', (), {'m_getenv': staticmethod(lambda ex_, o, k, d=None: 'true' if raw else d)})
     for g in ex.modules.values():
-        g.update(fnmatch=Obj('fnmatch'), MetricExportResult=Obj('MER', SUCCESS='SUCCESS', FAILURE='FAILURE'))
-    return Obj('OTelLineageExporter', _allow=allow, _export_raw_data=raw, _lineage=lineage)
+        g.update(fnmatch=fnmod, re=remod, os=Obj('osenv'), MetricExportResult=Obj('MER', SUCCESS='SUCCESS', FAILURE='FAILURE'))
+    mode = ex.implicit_mode
+    return ex.construct('OTelLineageExporter', [lineage], dict(allowlist=allow))
+
+
+CONCRETE_LISTS = (('*_fps', 'frames_processed'), ('pre_*',), ('a?c', '[xy]z*q'), ('exact_only',), ('*',), ('detection_*ence', 'x'))
+
+
+def allowed_spec_concrete(pats, name):
+    if not pats:
+        return z3.BoolVal(False)
+    return z3.Or(*[z3.Or(name == z3.StringVal(p), z3.InRe(name, remodel.glob_to_z3(p))) for p in pats])
 
 
 class IsAllowedUnit(Unit):
@@ -70,22 +83,32 @@ class IsAllowedUnit(Unit):
     )
 
     def shapes(self, tier):
-        return [None, 0, 1, 2] + ([3] if tier == 'thorough' else [])
+        return [None, 0, 1, 2] + ([3] if tier == 'thorough' else []) + [('concrete', i) for i in range(len(CONCRETE_LISTS))]
 
     def run(self, shape, dec):
         ex = new_exec(dec, BRIDGE)
         name = z3.String('name')
+        if isinstance(shape, tuple):        # a concrete allow-list, symbolic metric name: wildcard semantics decided with z3/cvc5 regular expressions
+            cpats = CONCRETE_LISTS[shape[1]]
+            me = exporter(ex, set(cpats))
+            ex.model_vars = dict(name=name)
+            ex.replay_info = dict(n=None, concrete=list(cpats))
+            r = ex.call_value(ex.getattr(me, '_is_allowed'), [name], {})
+            ex.cover('returned')
+            ex.outcome = 'return'
+            ex.oblige('C16.only_allowed: _is_allowed(name) == (name is an entry or matches a wildcard entry of the allow-list)', ex.zbool(r) == allowed_spec_concrete(cpats, name))
+            return ex
         pats = None if shape is None else [z3.String(f'p{i}') for i in range(shape)]
         me = exporter(ex, None if pats is None else set(pats))
         ex.model_vars = dict(name=name, **{f'p{i}': p for i, p in enumerate(pats or [])})
         ex.replay_info = dict(n=shape)
-        r = ex.call_closure(closure(BRIDGE, 'OTelLineageExporter._is_allowed'), [me, name], {})
+        r = ex.call_value(ex.getattr(me, '_is_allowed'), [name], {})
         ex.cover('returned')
         ex.outcome = 'return'
         spec = allowed_spec(pats, name)
         label = 'C16.lockdown: an empty allow-list allows nothing' if shape == 0 else 'C16.only_allowed: _is_allowed(name) == allowed(name)'
-        ex.oblige(label, zb(r) == spec)
-        ex.oblige('CANARY: _is_allowed always answers True', zb(r)) if shape else None
+        ex.oblige(label, ex.zbool(r) == spec)
+        ex.oblige('CANARY: _is_allowed always answers True', ex.zbool(r)) if shape else None
         return ex
 
     def replay(self, failure):
@@ -93,8 +116,9 @@ class IsAllowedUnit(Unit):
         m = failure['model'] or {}
         n = failure['extra']['n']
         allow = None if n is None else {m[f'p{i}'] for i in range(n)}
-        e = OTelLineageExporter.__new__(OTelLineageExporter)
-        e._allow = allow
+        if failure['extra'].get('concrete') is not None:
+            allow = set(failure['extra']['concrete'])
+        e = OTelLineageExporter(None, allowlist=allow)
         got = e._is_allowed(m.get('name', 'x'))
         import fnmatch
         want = True if allow is None else bool(allow) and any(m['name'] == p or fnmatch.fnmatch(m['name'], p) for p in allow)
